@@ -26,6 +26,7 @@ type Job struct {
 	Mons     []string // monitor ids
 	Suffix   bool     // run the convergence suffix (C15) from every state / end state
 	Weight   int      // relative time share
+	MinSeconds float64 // lower bound of the time share (targeted scenarios that need a certain depth)
 	Seconds  float64  // deadline handed to the worker
 }
 
@@ -209,44 +210,60 @@ func Check(prop, tier string, verifDir string, self string, procs int, budgetS f
 		fmt.Printf("no jobs for %s/%s\n", prop, tier)
 		return 2
 	}
-	// distribute the time budget: jobs run in waves of `procs`
-	totalW := 0
-	for _, j := range jobs {
+	// Two phases. The scripted D-DFS jobs run first; most of them complete within seconds.
+	// Whatever wall-clock time is left is then divided among the E-BFS jobs (which run
+	// until their deadline), in proportion to their weights.
+	results := make([]jobResult, len(jobs))
+	runPool := func(idx []int) {
+		sem := make(chan struct{}, procs)
+		var wg sync.WaitGroup
+		for _, ji := range idx {
+			wg.Add(1)
+			sem <- struct{}{}
+			go func(ji int) {
+				defer wg.Done()
+				defer func() { <-sem }()
+				results[ji] = runWorker(self, jobs[ji])
+			}(ji)
+		}
+		wg.Wait()
+	}
+	var dd, bfs []int
+	for i, j := range jobs {
 		if j.Weight <= 0 {
 			j.Weight = 1
 		}
-		totalW += j.Weight
-	}
-	for _, j := range jobs {
-		share := budgetS * float64(procs) * float64(j.Weight) / float64(totalW)
-		if share > budgetS {
-			share = budgetS
+		if j.Strategy == "ddfs" {
+			dd = append(dd, i)
+		} else {
+			bfs = append(bfs, i)
 		}
-		if share < 5 {
-			share = 5
+	}
+	ddBudget := budgetS
+	if len(bfs) > 0 {
+		ddBudget = budgetS * 0.45
+	}
+	if len(dd) > 0 {
+		waves := float64((len(dd) + procs - 1) / procs)
+		for _, ji := range dd {
+			jobs[ji].Seconds = max(4, ddBudget/waves)
 		}
-		j.Seconds = share
+		runPool(dd)
 	}
-	order := make([]int, len(jobs))
-	for i := range order {
-		order[i] = i
+	if len(bfs) > 0 {
+		remaining := max(10, budgetS-time.Since(start).Seconds())
+		totalW := 0
+		for _, ji := range bfs {
+			totalW += jobs[ji].Weight
+		}
+		for _, ji := range bfs {
+			share := remaining * float64(procs) * float64(jobs[ji].Weight) / float64(totalW)
+			jobs[ji].Seconds = max(4, jobs[ji].MinSeconds, min(share, remaining))
+		}
+		// heavier jobs first
+		sort.SliceStable(bfs, func(a, b int) bool { return jobs[bfs[a]].Weight > jobs[bfs[b]].Weight })
+		runPool(bfs)
 	}
-	// heavier jobs first; VERIF_SEED only rotates ties
-	sort.SliceStable(order, func(a, b int) bool { return jobs[order[a]].Weight > jobs[order[b]].Weight })
-	results := make([]jobResult, len(jobs))
-	sem := make(chan struct{}, procs)
-	var wg sync.WaitGroup
-	for _, ji := range order {
-		wg.Add(1)
-		sem <- struct{}{}
-		go func(ji int) {
-			defer wg.Done()
-			defer func() { <-sem }()
-			j := jobs[ji]
-			results[ji] = runWorker(self, j)
-		}(ji)
-	}
-	wg.Wait()
 
 	known := loadKnown(verifDir)
 	agg := struct {
